@@ -399,6 +399,7 @@ func checkC02Decode(t failer, c *codec, in []byte, label string) {
 		violation(t, "C02", c.name, "C02:"+c.name+":decode-encode-decode-differs", cc,
 			"%s: decode→encode→decode changed the value\n first =%s\n second=%s", c.name, js(m1), js(m2))
 	}
+	checkDirtyTarget(t, "C02", c, in, m1, cc)
 	ev.Class(c.name + ":dec-roundtrip:" + label)
 	if label != "plain" {
 		ev.NonTrivial(c.name+":dec:"+label, cc)
@@ -569,4 +570,35 @@ func TestC02Regress(t *testing.T) {
 		}
 		checkC02Encode(t, c, m, "saved")
 	}
+}
+
+// checkDirtyTarget: decoding into a value that already holds something else (a reused target) must
+// yield exactly what decoding into a fresh value yields: the decoder sets every field.
+func checkDirtyTarget(t failer, prop string, c *codec, in []byte, fresh interface{}, cc interface{}) {
+	dirty := c.toLib(dirtyModels[c.name])
+	var derr error
+	if p := catch(func() { derr = dirty.UnmarshalBinary(append([]byte{}, in...)) }); p != nil {
+		violation(t, prop, c.name, prop+":"+c.name+":decode-panics", cc, "%s: UnmarshalBinary into a reused target panics: %v", c.name, p)
+	}
+	if derr != nil {
+		violation(t, prop, c.name, prop+":"+c.name+":decode-depends-on-target", cc,
+			"%s: bytes that decode into a fresh value are refused when the target already held a value: %v", c.name, derr)
+	}
+	if got := c.fromLib(dirty); !sameModel(got, fresh) {
+		violation(t, prop, c.name, prop+":"+c.name+":decode-depends-on-target", cc,
+			"%s: decoding into a target that already held a value yields something else than decoding into a fresh one\n reused=%s\n fresh =%s", c.name, js(got), js(fresh))
+	}
+}
+
+// dirtyModels: what a reused decode target holds beforehand (every flag bit set, every field non-empty).
+var dirtyModels = map[string]interface{}{
+	"Header":         model.Header{Version: 0xc1, Type: 3, Seq: 2, Flags: 0xff, Session: 0xffffffff, Length: 65536},
+	"Packet":         PacketM{H: model.Header{Version: 0xc1, Type: 3, Seq: 2, Flags: 0xff, Session: 0xffffffff, Length: 3}, Body: model.B{9, 9, 9}},
+	"AuthenStart":    model.AuthenStart{Action: 4, Priv: 15, AType: 6, Service: 9, User: b("dirty-user"), Port: b("dirty-port"), RemAddr: b("dirty-rem"), Data: b("dirty-data")},
+	"AuthenReply":    model.AuthenReply{Status: 7, Flags: 0xff, ServerMsg: b("dirty-msg"), Data: b("dirty-data")},
+	"AuthenContinue": model.AuthenContinue{Flags: 0xff, UserMsg: b("dirty-msg"), Data: b("dirty-data")},
+	"AuthorRequest":  model.AuthorRequest{Method: 0x10, Priv: 15, AType: 6, Service: 9, User: b("dirty-user"), Port: b("dirty-port"), RemAddr: b("dirty-rem"), Args: []model.B{b("dirty=1"), b("dirty=2"), b("dirty=3")}},
+	"AuthorReply":    model.AuthorReply{Status: 0x11, ServerMsg: b("dirty-msg"), Data: b("dirty-data"), Args: []model.B{b("dirty=1"), b("dirty=2"), b("dirty=3")}},
+	"AcctRequest":    model.AcctRequest{Flags: 0xf3, Method: 0x10, Priv: 15, AType: 6, Service: 9, User: b("dirty-user"), Port: b("dirty-port"), RemAddr: b("dirty-rem"), Args: []model.B{b("dirty=1"), b("dirty=2"), b("dirty=3")}},
+	"AcctReply":      model.AcctReply{Status: 2, ServerMsg: b("dirty-msg"), Data: b("dirty-data")},
 }
